@@ -809,17 +809,24 @@ def run_case(ctx):
                 c = Circuit(list(c.operations), n_qubits=n)
             elif kind == "other":
                 c = Circuit(st[1], n_qubits=n)
-            elif kind == "set":
-                c.operations[st[1]] = st[2]
-            elif kind == "append":
-                c.operations.append(st[1])
-            elif kind == "pop":
-                c.operations.pop()
-            elif kind == "swap":
+            elif kind in ("set", "append", "pop", "swap", "reverse"):
+                # the caller edits the list that `circuit.operations` handed out.  Whether that list IS the circuit's
+                # own (the edit shows in the circuit) or a copy (it does not) is the library's choice: the plan was
+                # laid out for the first case, under the second a position may not exist - then the step is void
                 lst = c.operations
-                lst[st[1]], lst[st[2]] = lst[st[2]], lst[st[1]]
-            elif kind == "reverse":
-                c.operations.reverse()
+                try:
+                    if kind == "set":
+                        lst[st[1]] = st[2]
+                    elif kind == "append":
+                        lst.append(st[1])
+                    elif kind == "pop":
+                        lst.pop()
+                    elif kind == "swap":
+                        lst[st[1]], lst[st[2]] = lst[st[2]], lst[st[1]]
+                    else:
+                        lst.reverse()
+                except (IndexError, AttributeError, TypeError):
+                    ctx.mon.note("history:edit-of-the-handed-out-operation-list-void")
         return
     if cls == "wide":
         # registers beyond the widths dense matrices allow: a few small gates at the extreme / threshold positions;
